@@ -3,7 +3,7 @@
 cd "$(dirname "$0")"
 export CARGO_NET_OFFLINE=true
 fail=0
-for m in Wallet WalletProps MCWallet TraceWallet; do
+for m in Wallet WalletProps MCWallet TraceWallet Updater MCUpdater TraceUpdater Conc ConcWallet TraceConc Selection MCSelection WireGrammar Envelope TraceEnvelope; do
   (cd spec && tla-sany "$m.tla" >/dev/null 2>&1) || { echo "SANY failed on $m"; fail=1; }
 done
 (cd harness && cargo build --offline --lib --bin replay_wallet 2>&1 | tail -2) || fail=1
